@@ -324,3 +324,114 @@ pub fn http_follow_round(seed: u64) -> Value {
         "http_follow_round": true,
     })
 }
+
+/// C11 over the HTTP front end: follow with a heartbeat and a limit that history alone does not reach; pulses flow
+/// for a while, then the remaining frames are appended. Exactly the first n real frames, synthetic frames not
+/// counted, and the response ends.
+pub fn http_limit_round(seed: u64) -> Value {
+    let mut rng = Rng::new(seed);
+    let dir = work_dir("e2hl");
+    let mut sess = match Session::spawn(&dir, true) {
+        Ok(s) => s,
+        Err(e) => return json!({"mode": "c11-http", "seed": seed, "violations": [], "inconclusive": format!("session: {}", e)}),
+    };
+    let sock = dir.join("sock");
+    let mut out: Vec<Value> = vec![];
+    let inconclusive = |m: String| json!({"mode": "c11-http", "seed": seed, "violations": [], "inconclusive": m});
+    let hist = rng.below(6);
+    let extra = 1 + rng.below(4);
+    let n = hist + extra;
+    let pulse_ms = [10u64, 25, 60][rng.below(3)];
+    let sse = rng.chance(300);
+    let in_ctx = rng.chance(400);
+    let ctx: Option<String> = if in_ctx {
+        http::once(&sock, &Req::new("POST", "/xs.context"), Duration::from_secs(20)).ok().and_then(|r| serde_json::from_slice::<Frame>(&r.body).ok()).map(|f| f.id.to_string())
+    } else {
+        None
+    };
+    let post = |i: usize| -> Option<Frame> {
+        let target = match &ctx {
+            Some(c) => format!("/m?context={}", c),
+            None => "/m".to_string(),
+        };
+        http::once(&sock, &Req::new("POST", &target).body(format!("m{}", i).as_bytes()), Duration::from_secs(20)).ok().and_then(|r| serde_json::from_slice::<Frame>(&r.body).ok())
+    };
+    let mut want: Vec<String> = vec![];
+    for i in 0..hist {
+        match post(i) {
+            Some(f) => want.push(f.id.to_string()),
+            None => return inconclusive("append failed".into()),
+        }
+    }
+    // xs.start and (in the zero context) the registration frame are history too: start after the newest of them
+    let last = sess.call(json!({"op": "read_sync", "digest": true})).ok().map(|v| crate::model::parse_pairs(&v["frames"])).unwrap_or_default();
+    let before_hist = last.iter().map(|p| crate::model::id_str(p.0)).filter(|i| !want.contains(i)).last();
+    let mut q = vec![format!("follow={}", pulse_ms), format!("limit={}", n)];
+    if let Some(l) = &before_hist {
+        q.push(format!("last-id={}", l));
+    }
+    if let Some(c) = &ctx {
+        q.push(format!("context-id={}", c));
+    }
+    let Ok(mut conn) = Conn::open(&sock) else { return inconclusive("no connection".into()) };
+    let mut req = Req::new("GET", &format!("/?{}", q.join("&")));
+    if sse {
+        req = req.header("Accept", b"text/event-stream");
+    }
+    if conn.send(&req.bytes()).is_err() {
+        return inconclusive("send failed".into());
+    }
+    let Ok((status, headers)) = conn.read_head(Duration::from_secs(20)) else { return inconclusive("no response head".into()) };
+    if status != 200 {
+        return inconclusive(format!("status {}", status));
+    }
+    // let several heartbeats pass, then append the rest (and two more that must not be delivered)
+    std::thread::sleep(Duration::from_millis(pulse_ms * (3 + rng.below(4) as u64)));
+    for i in 0..extra + 2 {
+        match post(hist + i) {
+            Some(f) => {
+                if i < extra {
+                    want.push(f.id.to_string());
+                }
+            }
+            None => return inconclusive("append failed".into()),
+        }
+        std::thread::sleep(Duration::from_millis(rng.below(30) as u64));
+    }
+    let r = conn.read_body(&headers, Duration::from_secs(10), |_| false);
+    let (body, ended) = match r {
+        Ok((b, complete, _)) => (b, complete),
+        Err(_) => (vec![], false),
+    };
+    let frames: Vec<Frame> = if sse { http::sse(&body).into_iter().filter_map(|e| serde_json::from_value::<Frame>(e.1).ok()).collect() } else { http::ndjson(&body).into_iter().filter_map(|v| serde_json::from_value::<Frame>(v).ok()).collect() };
+    let real: Vec<String> = frames.iter().filter(|f| f.topic != "xs.pulse" && f.topic != "xs.threshold").map(|f| f.id.to_string()).collect();
+    let pulses = frames.iter().filter(|f| f.topic == "xs.pulse").count();
+    let d = json!({"history": hist, "limit": n, "pulse_ms": pulse_ms, "rendering": if sse { "sse" } else { "ndjson" }, "scoped": in_ctx, "real": real.len(), "pulses": pulses, "ended": ended});
+    let mut inconc = Value::Null;
+    if !ended {
+        if real.len() >= n {
+            out.push(json!({"props": ["C11"], "signature": "http-limit/stream-not-closed-after-the-nth-frame", "detail": d}));
+        } else {
+            inconc = json!("response neither ended nor delivered n frames within 10 s");
+        }
+    } else if real != want {
+        let sig = if real.len() < want.len() && real[..] == want[..real.len()] { "http-limit/response-ended-before-the-nth-frame" } else if real.len() > want.len() { "http-limit/more-than-n-frames" } else { "http-limit/delivered-frames-are-not-the-first-n-matching" };
+        out.push(json!({"props": ["C11"], "signature": sig, "detail": {"round": d, "got": real, "want": want}}));
+    }
+    sess.close();
+    rm_dir(&dir);
+    json!({
+        "mode": "c11-http",
+        "seed": seed,
+        "config": d,
+        "frames": real.len(),
+        "class": format!("http-limit/{}/{}", n, pulse_ms),
+        "shape": format!("http-limit/hist={}/n={}/pulse={}/{}{}", hist, n, pulse_ms, if sse { "sse" } else { "ndjson" }, if in_ctx { "/ctx" } else { "" }),
+        "split": format!("hist={}/live={}", hist, extra),
+        "violations": out,
+        "inconclusive": inconc,
+        "nontrivial": pulses > 0,
+        "http_limit_round": true,
+        "pulses_before_the_nth_frame": pulses,
+    })
+}
